@@ -193,6 +193,54 @@ def seq_reference(r, res, n):
     return bad
 
 
+def seq_events(r, res, n):
+    """the same sequential comparison with REAL event objects on the real EventQueue: events that differ only in
+    `dest_path`, only in `is_synthetic`, only in class or only in the watch they belong to are different items"""
+    import watchdog.events as ev
+    from watchdog.observers.api import EventQueue, ObservedWatch
+
+    w1, w2 = ObservedWatch("/w1", recursive=True), ObservedWatch("/w2", recursive=True)
+    pool = {
+        "a": (lambda: ev.FileMovedEvent("x", "y"), w1), "b": (lambda: ev.FileMovedEvent("x", "z"), w1),
+        "c": (lambda: ev.FileCreatedEvent("x"), w1), "d": (lambda: ev.FileCreatedEvent("x", is_synthetic=True), w1),
+        "e": (lambda: ev.DirCreatedEvent("x"), w1), "f": (lambda: ev.FileCreatedEvent("x"), w2),
+        "h": (lambda: ev.FileMovedEvent("x", "y", is_synthetic=True), w1),
+    }
+    seqs = []
+    for ln in range(1, 5):
+        seqs += list(itertools.product(list(pool) + ["g"], repeat=ln)) if ln <= 3 else []
+    for _ in range(n):
+        seqs.append(tuple(r.choice(list(pool) * 2 + ["g"]) for _ in range(r.randint(4, 14))))
+    bad = []
+    for seq in seqs:
+        q = EventQueue()
+        ref, out, ref_out = [], [], []
+        names = {}
+        for op in seq:
+            if op == "g":
+                if ref:
+                    ref_out.append(ref.pop(0))
+                    out.append("LOST" if q.empty() else names.get(id(q.get_nowait()), "?"))
+            else:
+                mk, w = pool[op]
+                item = (mk(), w)          # a fresh, equal object per put
+                names[id(item)] = op
+                if not ref or ref[-1] != op:
+                    ref.append(op)
+                q.put(item)
+                names[id(item)] = op
+        rest = []
+        while not q.empty():
+            rest.append(names.get(id(q.get_nowait()), "?"))
+        res.count()
+        res.bump("sequential_events")
+        if len(set(seq) - {"g"}) > 1:
+            res.nontrivial(("seqev", seq))
+        if out != ref_out or rest != ref:
+            bad.append((seq, out + rest, ref_out + ref))
+    return bad
+
+
 def event_equality(res, lean):
     """equality and hash of event objects = same class and same field values, over a pool"""
     import watchdog.events as ev
@@ -289,6 +337,7 @@ def run(res, tier, lean, proof_breaks=(), build_log=""):
     res.notes["preemption_bound"] = bound
     res.sample({"request": lines[0], "implementation": impl[0], "model": outs[0]})
     seq_bad = seq_reference(r, res, 3000 if thorough else 500)
+    seq_bad += seq_events(r, res, 2000 if thorough else 400)
     eq_bad = event_equality(res, lean)
     if judged:
         judged.sort(key=lambda b: len(b[0]))
